@@ -82,6 +82,24 @@ FacetShapeOK(vs) ==
   IF Len(vs) = 4 THEN vs[3] = VAdd(vs[2], VSub(vs[4], vs[1]))       \* parallelogram
   ELSE TRUE
 
+\* a flat convex quadrilateral facet in cyclic order (3-D): the normals of the four corner triangles are parallel
+\* and point the same way
+FacetPlanarConvex(vs) ==
+  IF Len(vs) # 4 \/ Len(vs[1]) # 3 THEN TRUE
+  ELSE LET c(a, b, d) == Cross3(VSub(vs[b], vs[a]), VSub(vs[d], vs[a]))
+           c1 == c(1, 2, 3) IN
+       /\ \A cc \in {c(1, 3, 4), c(1, 2, 4), c(2, 3, 4)} : Cross3(c1, cc) = <<0, 0, 0>> /\ VDot(c1, cc) > 0
+       /\ VDot(c1, c1) > 0
+\* greatest common divisor, primitive direction of an integer vector
+RECURSIVE IGcd(_, _)
+IGcd(a, b) == IF b = 0 THEN Abs(a) ELSE IGcd(b, a % b)
+VGcd(v) == LET RECURSIVE G(_) G(i) == IF i > Len(v) THEN 0 ELSE IGcd(Abs(v[i]), G(i + 1)) IN G(1)
+\* the "Jacobian vector" of an embedded simplex whose length is k! * measure: edge (k = 1), cross product (k = 2, n = 3)
+SimplexJacVec(vs) ==
+  IF Len(vs) = 2 THEN VSub(vs[2], vs[1])
+  ELSE IF Len(vs) = 3 /\ Len(vs[1]) = 3 THEN Cross3(VSub(vs[2], vs[1]), VSub(vs[3], vs[1]))
+  ELSE <<SimplexDet(vs)>>
+
 \* d! * |cell|  (integer), d! * signed measure (orientation) for affine cells
 CellJacSum(kind, vs) == LET S == CellSimplices(kind, vs) IN SumSeq([s \in DOMAIN S |-> Abs(SimplexDet(S[s]))])
 \* the affine cells' signed determinant as the library defines it (first simplex spanned by the local axes)
